@@ -4,6 +4,7 @@ import Heathcliff.Proofs.GenRns14
 import Heathcliff.Proofs.GenRns16
 import Heathcliff.Proofs.GenRns19
 import Heathcliff.Proofs.GenRns20
+import Heathcliff.Proofs.GenRns22
 import Heathcliff.Proofs.C01EW
 
 /-!
@@ -238,5 +239,27 @@ theorem grw_ff_floor : ∃ out, GenR.fast_floor (flatP (nv_c0 ++ nv_p2)) (flatP 
         ((((nv_c0 ++ nv_p2).getD (nv_tool.baseQ.size + i) #[]).getD j 0 : Nat) : Int) ≡ ([-1, 1363, 2134, -3839] : List Int).getD j 0 [ZMOD (nv_tool.baseBsk.q i).value] := by
       decide +kernel
     exact fun i j hi hj => h i hi j hj
+
+/-! ### `RNSBase::compose` on {97, 113}: (53, 28) ↦ the limbs of 5000, and back -/
+
+theorem grw_compose : GenR2.rnsbase_compose [53, 28] nv_base.size nv_base.base.toList nv_base.invPunct.toList (gr_punctRows nv_base) (limbsOf nv_base.size nv_base.prod)
+    = .ok [5000, 0] := by
+  obtain ⟨out, hok, hlen, hlim, hlt, hres⟩ := gr_rnsbase_compose_crt nv_base_wf [53, 28] rfl (by
+    intro i hi
+    have h2 : nv_base.size = 2 := rfl
+    rw [h2] at hi
+    interval_cases i <;> decide)
+  have hval : (GenR2.rnsbase_compose [53, 28] nv_base.size nv_base.base.toList nv_base.invPunct.toList (gr_punctRows nv_base)
+      (limbsOf nv_base.size nv_base.prod)).toOption = some [5000, 0] := by decide +kernel
+  rw [hok] at hval ⊢
+  simpa [Except.toOption] using hval
+
+theorem grw_decompose_compose : ∃ out, GenR2.rnsbase_compose [53, 28] nv_base.size nv_base.base.toList nv_base.invPunct.toList (gr_punctRows nv_base)
+      (limbsOf nv_base.size nv_base.prod) = .ok out ∧ GenR.rnsbase_decompose out nv_base.size nv_base.base.toList = .ok [53, 28] :=
+  gr_decompose_compose_gen nv_base_wf [53, 28] rfl (by
+    intro i hi
+    have h2 : nv_base.size = 2 := rfl
+    rw [h2] at hi
+    interval_cases i <;> decide)
 
 end HC
